@@ -48,6 +48,25 @@ Proof.
     + apply IH; auto. intros Hin. apply Hn. right. exact Hin.
 Qed.
 
+(* HashMap<TypeId, _>::insert / get *)
+Lemma md_get_insert_same {D} k (d : D) m : md_get k (md_insert k d m) = Some d.
+Proof.
+  induction m as [|[k' d'] r IH]; cbn [md_insert md_get].
+  - rewrite N.eqb_refl. reflexivity.
+  - destruct (N.eqb_spec k' k) as [->|Hn]; cbn [md_get].
+    + rewrite N.eqb_refl. reflexivity.
+    + destruct (N.eqb_spec k' k); [contradiction|exact IH].
+Qed.
+
+Lemma md_get_insert_other {D} k k' (d : D) m : k' <> k -> md_get k' (md_insert k d m) = md_get k' m.
+Proof.
+  intros Hn. induction m as [|[k1 d1] r IH]; cbn [md_insert md_get].
+  - destruct (N.eqb_spec k k'); [congruence|reflexivity].
+  - destruct (N.eqb_spec k1 k) as [->|H1]; cbn [md_get].
+    + destruct (N.eqb_spec k k'); [congruence|reflexivity].
+    + destruct (N.eqb_spec k1 k'); [reflexivity|exact IH].
+Qed.
+
 Section Define.
   Variable compiled params udata : Type.
   Notation scanner := (scanner compiled params udata).
@@ -180,6 +199,23 @@ Section Define.
   Proof. destruct s; reflexivity. Qed.
 
 
+  (* set_module_data::<M> replaces M's data and leaves every other module's, the params and the symbols alone *)
+  Lemma set_module_data_effect (s : scanner) k d :
+    let s' := set_module_data s k d in
+    md_get k (sc_mdata s') = Some d
+    /\ (forall k', k' <> k -> md_get k' (sc_mdata s') = md_get k' (sc_mdata s))
+    /\ sc_params s' = sc_params s /\ sc_syms s' = sc_syms s /\ sc_inner s' = sc_inner s.
+  Proof.
+    cbn [set_module_data sc_mdata sc_params sc_syms sc_inner]. repeat split.
+    - apply md_get_insert_same.
+    - intros k' Hn. apply md_get_insert_other, Hn.
+  Qed.
+
+  Lemma set_scan_params_effect (s : scanner) p :
+    let s' := set_scan_params s p in
+    sc_params s' = p /\ sc_mdata s' = sc_mdata s /\ sc_syms s' = sc_syms s /\ sc_inner s' = sc_inner s.
+  Proof. cbn. repeat split. Qed.
+
   (* ---------------------------------------------------------------- Compiler::define_symbol + Scanner::new *)
   Lemma compiler_define_nodup syms name v :
     NoDup (map fst syms) -> NoDup (map fst (fst (compiler_define syms name v))).
@@ -243,6 +279,8 @@ Arguments fold_apply_inner {compiled params udata}.
 Arguments fold_apply_wf {compiled params udata}.
 Arguments clone_eq {compiled params udata}.
 Arguments scanner_new_wf {compiled params udata}.
+Arguments set_module_data_effect {compiled params udata}.
+Arguments set_scan_params_effect {compiled params udata}.
 Arguments scanner_new_slots {compiled params udata}.
 
 Section Proofs.
